@@ -34,6 +34,14 @@ CLAIMED.update({
    text="GetInputCheckPassword answers are checked by an independent SRP server that holds only v: right password must verify, a neighbouring wrong password must not; corners with leading-zero B, A, S are searched at run time (A/S via scripted crypto/rand.Reader); empty password and out-of-range B.",
    note="trusted: ref/srpsrv (hand-written PBKDF2-HMAC-SHA512, formulas from core.telegram.org/api/srp)", ref="6/C18"),
 })
+CLAIMED.update({
+ "C02": dict(level="exploration", technique="runtime differential monitoring: library encoder/decoder vs an independent schema-directed TL serialiser over every definition of the shipped schemas",
+   text="For every one of the 1195 API definitions and the wire-used service definitions, schema-directed values are built positionally into the registered Go types, serialised by the library and compared byte-for-byte with an independent serialiser that interprets the .tl text; reference bytes are decoded by the library and matched. Definitions are enumerated completely, values are sampled (presence patterns, boundary lengths, nesting).",
+   note="trusted: ref/tlschema (self-validated: canonical CRC-32 = written id on all lines), positional bridge, registry export H1", ref="6/C02"),
+ "C13": dict(level="exploration", technique="run-time reflection audit of the registry built from the working tree against an independent parse + CRC-32 of the .tl files (finite space, enumerated completely)",
+   text="Static half: every schema definition is compared with its registered Go type by reflection in a binary built from the working tree (ids three ways, field kinds, flag bits, flags position), every registered id is looked up in the schemas, wrappers are found by source scan. (Dynamic half - every generated client method end-to-end against the reference server - is added by the e2e workloads, see DESIGN 6/C13.)",
+   note="trusted: ref/tlschema; known findings: five constructors registered that the schema only carries as comments", ref="6/C13"),
+})
 NOT_YET = {}
 
 def main():
